@@ -152,6 +152,7 @@ func (cr *cloneRun) cviol(clause, format string, a ...interface{}) {
 func (cr *cloneRun) run(dir string) {
 	s := cr.s
 	w := simrt.NewWorld(s.Seed, synctest.Wait)
+	w.StrictLocks = os.Getenv("VERIF_LOOSE_LOCKS") == ""
 	defer w.Close()
 	cr.w = w
 	w.TraceOn = os.Getenv("VERIF_TRACE") != ""
